@@ -1,5 +1,5 @@
 """Correspondence for the source-to-Lean translator (gen/py2lean.py) and its run-time library (lean/Asn1/PyLite.lean):
-the *translation* of a function (driver ops KTAG, KLEN, KTOBYTES, KOIDENC, KOIDDEC, KTIME, KREAL, KREALDEC, KDECLEN, KDECTAG, KOCTCHUNK, KSETOF, KWREAD, KWMARK, PYBIO, KCRANGE, KCSIZE, KCSINGLE, KCALPHA, KCERBOOL, KWRAP, KINTDEC; PYFROMBYTES) and the function itself in /repo are
+the *translation* of a function (driver ops KTAG, KLEN, KTOBYTES, KOIDENC, KOIDDEC, KTIME, KREAL, KREALDEC, KDECLEN, KDECTAG, KOCTCHUNK, KSETOF, KWREAD, KWMARK, KREADTURN, PYBIO, KCRANGE, KCSIZE, KCSINGLE, KCALPHA, KCERBOOL, KWRAP, KINTDEC; PYFROMBYTES) and the function itself in /repo are
 run on the same arguments; the Python builtins PyLite transcribes (PYOP) are compared with CPython.
 
 A disagreement means the translator or PyLite misrepresents the code (machinery fault to repair) - it is reported as a
@@ -47,7 +47,7 @@ def _py(f, *a, **kw):
     return ('ok', r)
 
 
-def check(rep, drv, seed, n=400, which=('encodeTag', 'encodeLength', 'toBytes', 'oidEncode', 'oidDecode', 'timeCanon', 'realBin', 'realDec', 'decodeLength', 'cerBool', 'wrapTags', 'intDecode', 'decodeTag', 'octetChunks', 'constraintLeaves', 'setOfSort', 'streamWrapper')):
+def check(rep, drv, seed, n=400, which=('encodeTag', 'encodeLength', 'toBytes', 'oidEncode', 'oidDecode', 'timeCanon', 'realBin', 'realDec', 'decodeLength', 'cerBool', 'wrapTags', 'intDecode', 'decodeTag', 'octetChunks', 'constraintLeaves', 'setOfSort', 'streamWrapper', 'readTurn')):
     """returns number of cases compared"""
     from pyasn1.codec.ber import encoder as benc, decoder as bdec
     from pyasn1.compat import integer
@@ -567,6 +567,52 @@ def check(rep, drv, seed, n=400, which=('encodeTag', 'encodeLength', 'toBytes', 
             ans = raw_line(drv.ask(line))
             if _ints(ans) != impl:
                 rep.disagree('KERNEL:wrapSetMark', line[:120], ans[:120], repr(impl)[:120])
+    if 'readTurn' in which:
+        import os as _os6
+        from pyasn1.codec import streaming as _st6
+        from pyasn1 import error as _err6
+
+        class RawStream(object):
+            """a raw stream that has received `d`, is closed or still open, hands out at most cap+1 octets per call"""
+            def __init__(self, d, closed, cap, pos):
+                self.d, self.closed, self.cap, self.pos = d, closed, cap, pos
+
+            def read(self, n=-1):
+                if n == 0:
+                    return b''
+                if self.pos >= len(self.d):
+                    return b'' if self.closed else None
+                r = self.d[self.pos:self.pos + min(n, self.cap + 1)]
+                self.pos += len(r)
+                return r
+
+            def seek(self, off, whence=0):
+                self.pos = max(0, self.pos + off) if whence == _os6.SEEK_CUR else off
+                return self.pos
+
+            def tell(self):
+                return self.pos
+        for i in range(n):
+            d = bytes(rng.randrange(256) for _ in range(rng.choice([0, 1, 2, 5, 9, 20])))
+            closed = rng.random() < 0.5
+            cap = rng.choice([0, 0, 1, 2, 7, 100])
+            pos = rng.randrange(0, len(d) + 1)
+            want = rng.choice([0, 1, 2, 3, len(d) - pos, len(d) - pos + 1, max(0, len(d) - pos - 1), 30])
+            rs = RawStream(d, closed, cap, pos)
+            try:
+                out = next(_st6.readFromStream(rs, want))
+                if isinstance(out, _err6.SubstrateUnderrunError):
+                    impl = ('ok', [-1, 999999, rs.tell()])
+                else:
+                    impl = ('ok', [-2] + list(out) + [999999, rs.tell()])
+            except _err6.EndOfStreamError:
+                impl = ('err', 'EndOfStreamError')
+            line = 'KREADTURN %d %d %d %d %s' % (closed, cap, pos, want, ' '.join(map(str, d)))
+            nonlocal_done[0] += 1
+            rep.corr_checked += 1
+            ans = drv.ask(line).replace('none', '-1').replace('some', '-2').replace('|', ' 999999 ')
+            if _ints(ans) != impl:
+                rep.disagree('KERNEL:readTurn', line[:300], ans[:300], repr(impl)[:300])
     if 'cerBool' in which:
         import io as _io2
         from pyasn1.codec.cer import decoder as cdec_
